@@ -80,7 +80,11 @@ impl UserFunction for Probe {
     }
 
     fn cacheable(&self) -> bool {
-        self.spec.cacheable
+        if self.spec.uncacheable_after == 0 {
+            return self.spec.cacheable;
+        }
+        let total: u32 = self.counts.lock().unwrap().iter().filter(|((f, _), _)| f == self.name).map(|(_, c)| *c).sum();
+        self.spec.cacheable && total < self.spec.uncacheable_after
     }
 }
 
